@@ -422,8 +422,18 @@ def deserialize_structure_reference(
     cls, the_dict: dict, *, keep_undefined, mapper, camel_case_convert=False
 ):
     field_by_name = {k: v for k, v in cls.__dict__.items() if isinstance(v, Field)}
+    additional_props = cls.__dict__.get(
+        ADDITIONAL_PROPERTIES, TypedPyDefaults.additional_properties_default
+    )
     kwargs = {
-        k: v for k, v in the_dict.items() if k not in field_by_name and keep_undefined
+        k: v
+        for k, v in the_dict.items()
+        if k not in field_by_name
+        and keep_undefined
+        and (
+            additional_props is True
+            or not TypedPyDefaults.ignore_invalid_additional_properties_in_deserialization
+        )
     }
 
     kwargs.update(
